@@ -61,15 +61,26 @@ func (d *Decrypter) processMessage(device *model.Device, decoded server.LoRaMess
 		device.KeyWarning = true
 	}
 
-	// Update frame counter with the next expected message.
+	// Update frame counter with the next expected message. The device is a copy
+	// that might be out of date by now (another copy of this frame received by
+	// a different gateway, the encoder sending a downlink) so the stored counter
+	// is checked once more when it is moved, and only the uplink counter is
+	// written.
 	if decoded.Payload.MACPayload.FHDR.FCnt >= device.FCntUp {
-		device.FCntUp = decoded.Payload.MACPayload.FHDR.FCnt + 1
-		if err := d.context.Storage.UpdateDeviceState(*device); err != nil {
-			// The message would be accepted again if it is processed without the
+		err := d.context.Storage.AdvanceFCntUp(device.DeviceEUI, decoded.Payload.MACPayload.FHDR.FCnt, device.KeyWarning)
+		if err == storage.ErrNotFound && device.RelaxedCounter {
+			// The counter is already past this one; that's not an issue for
+			// devices with relaxed counters.
+			err = nil
+		}
+		if err != nil {
+			// Either the frame counter has been used in the meantime or the
+			// message would be accepted again if it is processed without the
 			// frame counter in place. Drop it.
 			lg.Warning("Unable to update frame counters for device with EUI %s: %v. Ignoring message.", device.DeviceEUI, err)
 			return
 		}
+		device.FCntUp = decoded.Payload.MACPayload.FHDR.FCnt + 1
 	}
 	decoded.Payload.Decrypt(device.NwkSKey, device.AppSKey)
 	deviceData := model.UpstreamMessage{
